@@ -213,7 +213,7 @@ fn placements(n01: u32, n10: u32, f: u32) -> Vec<Fault> {
 pub fn run(ctx: &mut Ctx) {
     ctx.rule = "acknowledged mode, sizes {0,1,seg-1,seg,seg+1,3seg}, 6 NAK procedures (deferred/immediate x delay 0/50 ms/1.5 s), CRC on/off, closure on/off, limit 3, \
 Ta=2 Tn=3 Ti=9 s. A fault-free baseline gives n datagrams per direction; then every placement of F faults from {drop, duplicate(+1 ms, +40 ms), delay(3 ms, 9 ms)} over \
-ordinals 0..n+F of each direction: F=1 exhaustive; F=2 exhaustive for pairs of drops (quick and thorough) and for pairs of any kinds (thorough), proptest-sampled mixed pairs in quick; \
+ordinals 0..n+F of each direction: F=1 exhaustive (also with the transaction tasks polled late, hook H5); F=2 exhaustive for pairs of drops (quick and thorough) and for pairs of any kinds (thorough), proptest-sampled mixed pairs in quick; \
 both faults may hit a PDU and its retransmission (ordinals are per direction as emitted). Non-trivial = at least one fault hit a datagram; distinct by the whole scenario."
         .into();
     ctx.assumptions = vec![
@@ -242,6 +242,21 @@ both faults may hit a PDU and its retransmission (ordinals are per direction as 
         }
     }
     ctx.section = "F<=1-exhaustive".into();
+    ctx.drive_list(&part, cases, true);
+    // the same placements with the transaction tasks polled late (hook H5): a retransmission timer and the PDU that answers it,
+    // when they fall into one instant, are found ready together and either is taken first
+    let mut cases = vec![];
+    for (sc, a, b) in &base {
+        for y in [3u8, 4] {
+            for f in placements(*a, *b, 1) {
+                let mut s = sc.clone();
+                s.faults = vec![f];
+                s.yields = y;
+                cases.push(C02Case { sc: s });
+            }
+        }
+    }
+    ctx.section = "F=1-late-poll".into();
     ctx.drive_list(&part, cases, true);
 
     // F = 2: every pair of drops for every configuration (quick and thorough) ...
@@ -286,6 +301,7 @@ both faults may hit a PDU and its retransmission (ordinals are per direction as 
         let (sc, a, b) = &base2[bi];
         let mut s = sc.clone();
         s.seed = seed;
+        s.yields = [0u8, 0, 2, 3][(seed >> 40) as usize % 4];
         let kinds = fault_kinds();
         s.faults = fs
             .into_iter()
